@@ -439,3 +439,80 @@ def weighted_cases(rng, n):
                 cons.append(K(kind, i=rng.choice([0, -1, 1]), f=fid, l=l))
         out.append(case(F, cross(design, X, cons, True), "B", ["weights"] + [c["c"] for c in cons], "w-%d" % len(out)))
     return out
+
+
+# ---------------------------------------------------------------------------------------------
+# C15: derived-factor predicates over small windows - total / ambiguous / partial, ElseLevel, start, stride
+
+def derivation_cases(rng, n_random=0):
+    out = []
+    B = [basic("a", 2), basic("b", 2)]
+
+    def mk(name, fac, crossing, tags, cons=()):
+        F = B + [fac]
+        out.append(case(F, cross([1, 2, 3], crossing, list(cons)), "D", tags, "drv-%s" % name))
+
+    dom1 = window_domain(B, [1, 2], 1)            # 4 tuples
+    # every assignment of the 4 within-trial tuples to {level 1, level 2, both, none}: total/ambiguous/partial
+    import itertools as it
+    k = 0
+    for assign in it.product(("1", "2", "12", ""), repeat=4):
+        if k % 5 != 0 and assign.count("12") + assign.count("") > 0:     # thin out the ill-formed ones
+            k += 1
+            continue
+        k += 1
+        t1 = [t for t, a in zip(dom1, assign) if "1" in a]
+        t2 = [t for t, a in zip(dom1, assign) if "2" in a]
+        kind = "ambiguous" if "12" in assign else ("partial" if "" in assign else "total")
+        f = derived(B, "d", [1, 2], "within", table=[t1, t2])
+        mk("within-%s" % "".join(a or "0" for a in assign).replace("12", "B"), f, [1], ["derivation", kind])
+    # ElseLevel completes a partial table
+    for t1 in ([dom1[0]], [dom1[0], dom1[3]], []):
+        f = derived(B, "d", [1, 2], "within", table=[t1, []], else_level=2)
+        mk("else-%d" % len(t1), f, [1, 2], ["derivation", "else"])
+    # transitions / windows with default start, start before the default (None inputs) and after it, stride 2
+    domt = window_domain(B, [1], 2)
+    f = derived(B, "d", [1], "transition", table=eq_table(B, [1], 2))
+    mk("transition", f, [1], ["derivation", "transition"])
+    mk("transition-x", f, [2, 3], ["derivation", "transition", "crossed"])
+    for start in (0, 1, 2, 3):
+        np_ = none_positions(B, [1], 2, start)
+        dom = window_domain(B, [1], 2, np_)
+        same = [t for t in dom if t[0] == t[1]]
+        rest = [t for t in dom if t[0] != t[1]]
+        f = derived(B, "d", [1], "window", width=2, start=start, table=[same, rest])
+        tags = ["derivation", "window", "start%d" % start] + (["start-before-default"] if start < 1 else [])
+        mk("win2-start%d" % start, f, [1], tags)
+        mk("win2-start%d-x" % start, f, [2, 3], tags + ["crossed"])
+        f2 = derived(B, "d", [1], "window", width=2, start=start, table=[same, []], else_level=2)
+        mk("win2-start%d-else" % start, f2, [1], tags + ["else"])
+    for stride in (2, 3):
+        f = derived(B, "d", [1], "window", width=2, stride=stride, table=eq_table(B, [1], 2))
+        mk("win2-stride%d" % stride, f, [1, 2], ["derivation", "window", "stride"], [K("MinimumTrials", k=6)])
+        f1 = derived(B, "d", [1, 2], "window", width=1, stride=stride, table=eq_table(B, [1, 2], 1))
+        mk("win1-stride%d" % stride, f1, [1, 2], ["derivation", "window", "stride"], [K("MinimumTrials", k=6)])
+    f = derived(B, "d", [1], "window", width=3, table=eq_table(B, [1], 3))
+    mk("win3", f, [1], ["derivation", "window", "width3"], [K("MinimumTrials", k=5)])
+    # partial / ambiguous transitions
+    f = derived(B, "d", [1], "transition", table=[[[1, 1]], [[1, 2], [2, 1]]])
+    mk("transition-partial", f, [1], ["derivation", "partial", "transition"])
+    f = derived(B, "d", [1], "transition", table=[[[1, 1], [2, 2]], [[1, 2], [2, 1], [2, 2]]])
+    mk("transition-ambiguous", f, [1], ["derivation", "ambiguous", "transition"])
+    for j in range(n_random):
+        deps = sorted(rng.sample([1, 2], rng.choice([1, 2])))
+        dk = rng.choice(["within", "transition", "window"])
+        width = 1 if dk == "within" else 2
+        dom = window_domain(B, deps, width)
+        t1, t2 = [], []
+        for t in dom:
+            r = rng.random()
+            if r < 0.46:
+                t1.append(t)
+            elif r < 0.92:
+                t2.append(t)
+            elif r < 0.96:
+                t1.append(t)
+                t2.append(t)
+        f = derived(B, "d", deps, dk, width=width, table=[t1, t2])
+        mk("rnd-%d" % j, f, [rng.choice([1, 2])], ["derivation", "random"])
+    return out
